@@ -84,6 +84,17 @@ def gen_runs(ctx, label, n, small=True):
             ns = G.legal(rng, mp, lo=10, hi=14)
             if i % 40 == 37 and mp != 'sm':
                 ns.update(n1=rng.randint(101, 120), numinst=1)
+        if i % 40 == 17:
+            # a second-side list of more than 1000 entries (numpy abbreviates the text of longer arrays; any rendering
+            # through numpy's printing would lose entries there): everybody lists both hospitals / both projects
+            mp = ['hr', 'spa'][(i // 40) % 2]
+            ns = G.legal(rng, mp, small=True)
+            ns.update(n1=rng.randint(1001, 1040), n2=2, pmin=2, pmax=2, twopl=True, numinst=1, lq=0, uq=2 * rng.randint(600, 700),
+                      t1=None, t2=[None, 0.0, 0.002][(i // 80) % 3], skew=None)
+            if mp == 'spa':
+                ns.update(n3=1, luq=1500, lt=None, llq=None)
+            yield dict(ns=ns, seed=rng.randrange(10**6))
+            continue
         if i % 20 == 13:
             # many files in one run (file naming / per-file state): 10..12 instances, thorough tier also more than 100
             ns['numinst'] = [11, 10, 12][(i // 20) % 3] if (n < 200 or i % 100 != 13) else 101
@@ -179,6 +190,8 @@ class GenShape(GenFile):
         for (n, t), d in zip(obs['files'], obs['draws']):
             terms.append('m_genfile %s %s' % (a, C.cstr(t)))
             sec = G.second_side_lists(ns, t)
+            if sec is None:
+                return 'false'
             terms.append('(g_twopl %s || forallb (fun l : list Z => Nat.eqb (length l) 0) %s)' % (a, C.clist([C.czlist(l) for l in sec])))
             t1 = ns['t1'] or 0.0
             t2 = ns['t2'] or 0.0
